@@ -1,0 +1,16 @@
+//go:build verif
+
+package generator
+
+import "github.com/atombender/go-jsonschema/internal/x/text"
+
+// VerifIdentifierize exposes text.Caser.Identifierize to the verification harness
+// (the internal package cannot be imported from another module).
+func VerifIdentifierize(capitalizations, resolveExtensions []string, s string) string {
+	return text.NewCaser(capitalizations, resolveExtensions).Identifierize(s)
+}
+
+// VerifIdentifierFromFileName exposes text.Caser.IdentifierFromFileName.
+func VerifIdentifierFromFileName(capitalizations, resolveExtensions []string, fileName string) string {
+	return text.NewCaser(capitalizations, resolveExtensions).IdentifierFromFileName(fileName)
+}
